@@ -83,3 +83,97 @@ Proof. split; vm_compute; reflexivity. Qed.
    branch: the class is constructed concretely there and must be consistent too *)
 Lemma exceptional_models_ok : forallb fixed_ok exceptional_models = true.
 Proof. vm_compute. reflexivity. Qed.
+
+(* ---- the connection-scheme axis: which architectures admit connections='unique' *)
+Lemma pairs_mono : forall P0 P, 0 <= P0 <= P -> pairs P0 <= pairs P.
+Proof.
+  intros P0 P H. unfold pairs. apply Z.div_le_mono; [lia|].
+  assert (0 <= (P - P0) * (P + P0 - 1)).
+  { destruct (Z.eq_dec P P0) as [->|Hne]; [lia|]. apply Z.mul_nonneg_nonneg; lia. }
+  lia.
+Qed.
+Lemma pairs_ge : forall P P0 c, 0 <= P0 <= P -> c <= pairs P0 -> c <= pairs P.
+Proof. intros P P0 c H Hc. pose proof (pairs_mono P0 P H). lia. Qed.
+Lemma pairs_lower : forall n c, 2 * c <= n * (n - 1) -> c <= pairs n.
+Proof. intros n c H. unfold pairs. apply Z.div_le_lower_bound; lia. Qed.
+
+Ltac unique_goal k :=
+  match goal with
+  | |- ?c <= pairs ?e =>
+      lazymatch c with
+      | context [k] => apply pairs_lower; nia
+      | _ => let f := eval pattern k in e in
+             lazymatch f with
+             | ?g _ => let v := eval vm_compute in (g 1) in
+                       apply (pairs_ge e v c); [lia | vm_compute; discriminate]
+             end
+      end
+  | |- _ <= _ => lia
+  | |- True => exact I
+  end.
+
+Ltac unique_scheme :=
+  intros k Hk;
+  cbv [unique_all unique_ok map
+       ClgnMnist_layers ClgnCifar10_nbits1_layers ClgnCifar10_nbits2_layers ClgnCifar10_nbits3_layers ClgnCifar10_nbits4_layers ClgnCifar10_nbits5_layers
+       ClgnCifar10Res_nbits1_layers ClgnCifar10Res_nbits2_layers ClgnCifar10Res_nbits3_layers ClgnCifar10Res_nbits4_layers ClgnCifar10Res_nbits5_layers
+       ClgnCifar10Tiny_layers ClgnCifar10Mini_layers DlgnMnist_layers DlgnCifar10_2_4_layers DlgnCifar10_5_5_layers
+       Dlgn_generic_layers CNN_layers RandomlyConnectedNN_layers];
+  eval_closed k;
+  repeat match goal with |- _ /\ _ => split end; unique_goal k.
+
+Lemma ClgnMnist_unique : forall k, 1 <= k -> unique_all (ClgnMnist_layers k).
+Proof. unique_scheme. Qed.
+Lemma ClgnCifar10_1_unique : forall k, 1 <= k -> unique_all (ClgnCifar10_nbits1_layers k). Proof. unique_scheme. Qed.
+Lemma ClgnCifar10_2_unique : forall k, 1 <= k -> unique_all (ClgnCifar10_nbits2_layers k). Proof. unique_scheme. Qed.
+Lemma ClgnCifar10_3_unique : forall k, 1 <= k -> unique_all (ClgnCifar10_nbits3_layers k). Proof. unique_scheme. Qed.
+Lemma ClgnCifar10_4_unique : forall k, 1 <= k -> unique_all (ClgnCifar10_nbits4_layers k). Proof. unique_scheme. Qed.
+Lemma ClgnCifar10_5_unique : forall k, 1 <= k -> unique_all (ClgnCifar10_nbits5_layers k). Proof. unique_scheme. Qed.
+Lemma ClgnCifar10Res_1_unique : forall k, 1 <= k -> unique_all (ClgnCifar10Res_nbits1_layers k). Proof. unique_scheme. Qed.
+Lemma ClgnCifar10Res_2_unique : forall k, 1 <= k -> unique_all (ClgnCifar10Res_nbits2_layers k). Proof. unique_scheme. Qed.
+Lemma ClgnCifar10Res_3_unique : forall k, 1 <= k -> unique_all (ClgnCifar10Res_nbits3_layers k). Proof. unique_scheme. Qed.
+Lemma ClgnCifar10Res_4_unique : forall k, 1 <= k -> unique_all (ClgnCifar10Res_nbits4_layers k). Proof. unique_scheme. Qed.
+Lemma ClgnCifar10Res_5_unique : forall k, 1 <= k -> unique_all (ClgnCifar10Res_nbits5_layers k). Proof. unique_scheme. Qed.
+Lemma ClgnCifar10Tiny_unique : forall k, 1 <= k -> unique_all (ClgnCifar10Tiny_layers k). Proof. unique_scheme. Qed.
+Lemma CNN_unique : forall k, 1 <= k -> unique_all (CNN_layers k). Proof. unique_scheme. Qed.
+
+(* ClgnCifar10Mini ends with LogicDense(128 k -> 60 k): 128 k > 2 * 60 k, so no scale admits the 'unique' scheme (finding F51) *)
+Lemma ClgnCifar10Mini_unique_refuted : forall k, 1 <= k -> ~ unique_all (ClgnCifar10Mini_layers k).
+Proof.
+  intros k Hk H. cbv [unique_all unique_ok ClgnCifar10Mini_layers] in H.
+  destruct H as (_ & _ & _ & _ & _ & (H & _) & _). lia.
+Qed.
+(* ... and that layer is the only obstacle *)
+Lemma ClgnCifar10Mini_unique_others : forall k, 1 <= k ->
+  match ClgnCifar10Mini_layers k with
+  | c :: f :: d1 :: d2 :: d3 :: _ => unique_all [c; f; d1; d2; d3]
+  | _ => False
+  end.
+Proof. unique_scheme. Qed.
+
+(* the dense family under 'unique': the first layer must be at least half as wide as the input and no wider than its pairs *)
+Ltac dense_unique lo hi :=
+  intros k Hk;
+  cbv [unique_all unique_ok DlgnMnist_layers DlgnCifar10_2_4_layers DlgnCifar10_5_5_layers Dlgn_generic_layers];
+  repeat match goal with |- context [pairs ?n] =>
+           lazymatch n with context [k] => fail | _ => let v := eval vm_compute in (pairs n) in change (pairs n) with v end end;
+  split;
+  [ intros H; decompose [and] H; lia
+  | intros [Hlo Hhi]; repeat match goal with |- _ /\ _ => split end;
+    try exact I; try lia; apply pairs_lower; nia ].
+
+Lemma DlgnMnist_unique : forall k, 1 <= k -> (unique_all (DlgnMnist_layers k) <-> 40 <= k <= 30693).
+Proof. dense_unique 40 30693. Qed.
+Lemma DlgnCifar10_2_4_unique : forall k, 1 <= k -> (unique_all (DlgnCifar10_2_4_layers k) <-> 308 <= k <= 1887129).
+Proof. dense_unique 308 1887129. Qed.
+Lemma DlgnCifar10_5_5_unique : forall k, 1 <= k -> (unique_all (DlgnCifar10_5_5_layers k) <-> 768 <= k <= 11795712).
+Proof. dense_unique 768 11795712. Qed.
+Lemma Dlgn_generic_unique : forall k, 1 <= k -> (unique_all (Dlgn_generic_layers k) <-> 2 <= k <= 16).
+Proof. dense_unique 2 16. Qed.
+
+(* fixed-scale classes: every one admits 'unique' except the four ClgnCifar10Mini sizes *)
+Definition fixed_unique : list bool := map (fun m => unique_all_b (fst m)) fixed_models.
+Lemma fixed_unique_ok :
+  fixed_unique = [true; true; true; true; true; true; true; true; true; true; true; true; true;
+                  false; false; false; false; true; true; true; true; true; true; true].
+Proof. vm_compute. reflexivity. Qed.
